@@ -50,6 +50,10 @@ func main() {
 		runOverlap(*tier, *seed)
 	case "cold":
 		runCold(*langArg, *seed, *nArg)
+	case "concuni":
+		runConcUni(*tier, *seed)
+	case "batch":
+		runBatch(*tier, *seed)
 	case "conc":
 		runConcFile(*arg, *seed)
 	case "prog":
@@ -137,6 +141,13 @@ func genFor(prop, tier string, seed int64, phase string) {
 			}
 		}
 	case "C15":
+		// "a nil error only for valid sentences": of all 2048 last words, after validations that leave leading-zero
+		// entropies behind, exactly the predicted ones are accepted
+		if q {
+			runSweeps(tier, seed, newRng(seed, "c15l").perm(10)[:2], 4)
+		} else {
+			runSweeps(tier, seed, all10, 8)
+		}
 		runDefects(tier, seed, all10)
 		runUniform(seed, all10, "uniform")
 		runWhitespaceMix(seed, map[string]int{"quick": 300, "thorough": 4000}[tier], []int64{0, 1, 2, 3, 4, 5, 6, 7, 8, 9})
